@@ -180,7 +180,7 @@ def random_cases(draw):
         if v not in names:
             names.append(v)
     depth = draw(st.integers(2, 5))
-    return {"ast": _cap_xor(draw(S.expr_of_depth(names, logic.LOGICAL, depth)), [3 if depth <= 3 else 2 if depth == 4 else 1])}
+    return {"ast": S.cap_clause_cost(_cap_xor(draw(S.expr_of_depth(names, logic.LOGICAL, depth)), [3 if depth <= 3 else 2 if depth == 4 else 1]), 1500)}
 
 
 # ------------------------------------------------------------------ oracle
